@@ -46,6 +46,11 @@ class _CanonUnparser(ast._Unparser):
             star = [k for k in kws if k.arg is None]
             if [k.arg for k in named + star] != [k.arg for k in kws]:
                 node = ast.Call(func=node.func, args=node.args, keywords=named + star)
+        # a.dot(b) and np.dot(a, b) are one spelling
+        f = node.func
+        if isinstance(f, ast.Attribute) and f.attr == "dot" and len(node.args) == 1 and not node.keywords \
+                and not (isinstance(f.value, ast.Name) and f.value.id in ("np", "numpy")):
+            node = ast.Call(func=ast.Attribute(value=ast.Name(id="np", ctx=ast.Load()), attr="dot", ctx=ast.Load()), args=[f.value, node.args[0]], keywords=[])
         return super().visit_Call(node)
 
 
@@ -129,11 +134,35 @@ def norm(node):
     return NormStr(text, _root_of(node) if isinstance(node, ast.AST) else None)
 
 
+def P(pattern):
+    """canonical spelling of a pattern written as source text (same normalisation as norm())"""
+    try:
+        tree = ast.parse(pattern)
+    except SyntaxError:
+        return pattern
+    if len(tree.body) == 1 and isinstance(tree.body[0], ast.Expr):
+        return str(norm(tree.body[0].value))
+    return "\n".join(str(norm(st)) for st in tree.body)
+
+
 def norm_block(stmts, sep="\n"):
     """normalised text of a statement list (keeps the link to the enclosing function for anchor recording)"""
     stmts = list(stmts)
     text = sep.join(str(norm(x)) for x in stmts)
     return NormStr(text, _root_of(stmts[0]) if stmts else None)
+
+
+def raising_ifs(fn_node):
+    """(condition node, polarity under which a `raise` is reached directly, if node) for every `if` of fn_node
+    that raises in one of its arms (branch polarity is canonical: tests carry no leading `not`)"""
+    out = []
+    for n in walk_own(fn_node):
+        if isinstance(n, ast.If):
+            if any(isinstance(x, ast.Raise) for x in n.body):
+                out.append((n.test, True, n))
+            if any(isinstance(x, ast.Raise) for x in n.orelse):
+                out.append((n.test, False, n))
+    return out
 
 
 def stmt_of(node):
